@@ -68,7 +68,7 @@ impl Scen {
                 Event::BlockedSenderClose => { if self.mode != Mode::WebRtc || self.phase != Phase::ChannelsOpen || self.events.len() > 1 { return false; } }
                 // direct modes have no liveness mechanism (ICE consent checks run in WebRTC mode only): a silent peer is by design not an event there
                 Event::PeerVanish | Event::PeerClose => { if !connected || self.events.len() > 1 || self.mode != Mode::WebRtc { return false; } }
-                Event::Drop => { if matches!(self.phase, Phase::IceConnected | Phase::DtlsHandshaking) || self.events.len() > 1 { return false; } }
+                Event::Drop => { if matches!(self.phase, Phase::Checking | Phase::IceConnected | Phase::DtlsHandshaking) || self.events.len() > 1 { return false; } }
                 Event::CloseTwice => { if self.events.len() > 1 || matches!(self.phase, Phase::IceConnected | Phase::DtlsHandshaking) { return false; } }
                 Event::IceStop => { if matches!(self.phase, Phase::Created) { return false; } }
                 Event::Close => {}
@@ -400,7 +400,8 @@ fn leak_run(sc: &Scen) -> (usize, usize, usize, usize) {
     let sc2 = sc.clone();
     let _ = rt.block_on(async move { tokio::spawn(async move { exec(&sc2).await }).await });
     let mut t1 = 0; let mut fd1 = 0;
-    for _ in 0..30 {
+    // poll up to 12 s (> stun_timeout 5 s, nomination 10 s): release must be bounded, not instantaneous
+    for _ in 0..120 {
         std::thread::sleep(Duration::from_millis(100));
         t1 = rt.metrics().num_alive_tasks(); fd1 = socket_fds();
         if t1 <= t0 && fd1 <= fd0 { break; }
@@ -441,7 +442,10 @@ async fn reason_tables(run: &mut Run, thorough: bool) {
         let mut p = Pair::create(sc.cfg(), &Knobs::default());
         if p.negotiate().await.is_err() || p.wait_connected(Duration::from_secs(12)).await.is_err() { continue; }
         let x = p.off.pc.clone();
-        if let Some(sctp) = x.verif_lc_sctp_transport() { sctp.verif_lc_set_close_reason(Some(r.to_string())); }
+        // precondition of the case: the association object is there and carries exactly this reason string
+        let Some(sctp) = x.verif_lc_sctp_transport() else { run.count("cwr_skipped_no_sctp"); p.off.pc.close(); p.ans.pc.close(); continue; };
+        sctp.verif_lc_set_close_reason(Some(r.to_string()));
+        if sctp.close_reason().as_deref() != Some(*r) || x.disconnect_reason().is_some() { run.count("cwr_skipped_precondition"); p.off.pc.close(); p.ans.pc.close(); continue; }
         let outer = if i % 2 == 0 { DisconnectReason::LocalClose } else { DisconnectReason::Dropped };
         x.verif_lc_close_with_reason(outer.clone());
         run.case("cwr", &format!("{} {}", if r.is_empty() { "<empty>" } else { r }, reason_text(&Some(outer.clone()))), &format!("{} {}", reason_text(&x.disconnect_reason()), peer_text(*x.subscribe_peer_state().borrow())), true);
@@ -455,6 +459,14 @@ async fn reason_tables(run: &mut Run, thorough: bool) {
 pub fn run(args: &Args) {
     let mut run = Run::new("c17", &args.out);
     if let Some(case) = &args.replay {
+        if case.starts_with("cwr") || case.starts_with("prop") {
+            let rt = tokio::runtime::Builder::new_multi_thread().worker_threads(4).enable_all().build().unwrap();
+            let mut r = Run::new("c17", &args.out);
+            rt.block_on(reason_tables(&mut r, true));
+            r.finish();
+            println!("reason tables re-run: see {}/impl.txt", args.out);
+            return;
+        }
         let t = case.split_whitespace().last().unwrap_or("");
         let sc = Scen::parse(t).or_else(|| case.split_whitespace().find_map(Scen::parse)).expect("replay: <mode>:<phase>:<event[+event]>");
         let rt = tokio::runtime::Builder::new_multi_thread().worker_threads(4).enable_all().build().unwrap();
@@ -517,8 +529,8 @@ pub fn run(args: &Args) {
         let (t0, t1, f0, f1) = leak_run(sc);
         leaks.push(serde_json::json!({"scenario": sc.text(), "tasks_before": t0, "tasks_after": t1, "socket_fds_before": f0, "socket_fds_after": f1}));
         run.count("resource_runs");
-        if t1 > t0 { run.fail(&format!("leak:{}:tasks-alive-after-teardown", sig_class(sc)), &format!("life {}", sc.text()), &format!("tasks {t0} -> {t1} after 3 s")); }
-        if f1 > f0 { run.fail(&format!("leak:{}:sockets-open-after-teardown", sig_class(sc)), &format!("life {}", sc.text()), &format!("socket fds {f0} -> {f1} after 3 s")); }
+        if t1 > t0 { run.fail(&format!("leak:{}:tasks-alive-after-teardown", sig_class(sc)), &format!("life {}", sc.text()), &format!("tasks {t0} -> {t1} after 12 s")); }
+        if f1 > f0 { run.fail(&format!("leak:{}:sockets-open-after-teardown", sig_class(sc)), &format!("life {}", sc.text()), &format!("socket fds {f0} -> {f1} after 12 s")); }
     }
     run.notes.insert("resources_measured".into(), serde_json::json!(leaks));
     run.notes.insert("runtime_facts".into(), serde_json::json!("task / descriptor release and call latencies are measured on this host (tokio RuntimeMetrics::num_alive_tasks, /proc/self/fd sockets, 700 ms call bound, 1.5 s settle; 4 s for peer-vanish with threshold 1.2 s + grace 0.3 s) — not theorems"));
